@@ -96,33 +96,132 @@ theorem Stk.push {root : Place} {st0 st' : St} {pl : Nat → Place} {pos : Nat} 
       · unfold upd; rw [if_neg (by omega), if_neg (by omega)]; exact hl'.of_obj (hlow k (by omega))
       · unfold upd; rw [if_neg (by omega), if_neg (by omega)]; exact hc'
 
-theorem childAt_true_of_noUnion {q ch : Place} {p : Nat} (hn : noUnion q.ty = true) (h : childAt q p false = some ch) :
-    childAt q p true = some ch := by
+theorem subTys_self (t : Ty) : t ∈ subTys t := by
+  cases t <;> simp [subTys]
+
+theorem subTysMs_drop : ∀ (p : Nat) (ms : Members) {n t o b a nx}, Members.drop ms p = .cons n t o b a nx →
+    ∀ x ∈ subTys t, x ∈ subTysMs ms := by
+  intro p
+  induction p with
+  | zero =>
+    intro ms n t o b a nx hd x hx
+    have : ms = .cons n t o b a nx := by cases ms <;> simpa [Members.drop] using hd
+    subst this
+    simp only [subTysMs, List.mem_append]
+    exact .inl hx
+  | succ p ih =>
+    intro ms n t o b a nx hd x hx
+    cases ms with
+    | nil => simp [Members.drop] at hd
+    | cons n0 t0 o0 b0 a0 nx0 =>
+      simp only [subTysMs, List.mem_append]
+      exact .inr (ih nx0 (by simpa [Members.drop] using hd) x hx)
+
+/-- the types below a child are types below the parent -/
+theorem subTys_child {q ch : Place} {p : Nat} {pp : Bool} (h : childAt q p pp = some ch) :
+    ∀ x ∈ subTys ch.ty, x ∈ subTys q.ty := by
+  intro x hx
   cases hty : q.ty with
   | scalar s k => rw [childAt_scalar hty] at h; cases h
-  | array n e => unfold childAt at h ⊢; rw [hty] at h ⊢; exact h
+  | array n e =>
+    unfold childAt at h
+    rw [hty] at h
+    simp only [] at h
+    split at h
+    · cases h
+      simp only [subTys, List.mem_cons]
+      exact .inr hx
+    · cases h
   | agg u tag size ms =>
-    rw [hty] at hn
-    simp only [noUnion, Bool.and_eq_true, Bool.not_eq_true'] at hn
+    rw [childAt_agg hty] at h
+    split at h
+    · cases h
+    · cases hd : Members.drop ms p with
+      | nil => rw [hd] at h; cases h
+      | cons n t o b a nx =>
+        rw [hd] at h
+        cases h
+        simp only [subTys, List.mem_cons]
+        exact .inr (subTysMs_drop p ms hd x hx)
+
+theorem walk_subTys : ∀ (ps : List Nat) {q d : Place}, walk q ps = some d → d.ty ∈ subTys q.ty := by
+  intro ps
+  induction ps with
+  | nil => intro q d h; cases h; exact subTys_self _
+  | cons p ps ih =>
+    intro q d h
+    simp only [walk] at h
+    cases hc : childAt q p true with
+    | none => rw [hc] at h; cases h
+    | some ch =>
+      rw [hc] at h
+      exact subTys_child hc _ (ih h)
+
+theorem firstPathMs_drop : ∀ (p : Nat) (ms : Members) (ps : List Nat) {n t o b a nx}, Members.drop ms p = .cons n t o b a nx →
+    firstPathMs ms p ps = firstPath t ps := by
+  intro p
+  induction p with
+  | zero =>
+    intro ms ps n t o b a nx hd
+    have : ms = .cons n t o b a nx := by cases ms <;> simpa [Members.drop] using hd
+    subst this
+    simp [firstPathMs]
+  | succ p ih =>
+    intro ms ps n t o b a nx hd
+    cases ms with
+    | nil => simp [Members.drop] at hd
+    | cons n0 t0 o0 b0 a0 nx0 =>
+      simp only [firstPathMs]
+      exact ih nx0 ps (by simpa [Members.drop] using hd)
+
+/-- one step of a path that stays on first union members is a step of the positional tree -/
+theorem firstPath_step {q ch : Place} {p : Nat} {ps : List Nat} (hf : firstPath q.ty (p :: ps) = true)
+    (h : childAt q p false = some ch) : childAt q p true = some ch ∧ firstPath ch.ty ps = true := by
+  cases hty : q.ty with
+  | scalar s k => rw [childAt_scalar hty] at h; cases h
+  | array n e =>
+    rw [hty] at hf
+    simp only [firstPath] at hf
+    unfold childAt at h ⊢
+    rw [hty] at h ⊢
+    simp only [] at h ⊢
+    refine ⟨h, ?_⟩
+    split at h
+    · cases h; exact hf
+    · cases h
+  | agg u tag size ms =>
+    rw [hty] at hf
+    simp only [firstPath, Bool.and_eq_true, Bool.or_eq_true, Bool.not_eq_true', beq_iff_eq] at hf
     rw [childAt_agg hty] at h ⊢
-    simp only [hn.1, Bool.false_and, Bool.false_eq_true, if_false] at h ⊢
-    exact h
+    simp only [Bool.and_false, Bool.false_and, Bool.false_eq_true, if_false] at h
+    have hcond : ¬ ((u && true && decide (p ≠ 0)) = true) := by
+      rcases hf.1 with h1 | h1
+      · simp [h1]
+      · simp [h1]
+    rw [if_neg hcond]
+    refine ⟨h, ?_⟩
+    cases hd : Members.drop ms p with
+    | nil => rw [hd] at h; cases h
+    | cons n t o b a nx =>
+      rw [hd] at h
+      cases h
+      rw [← firstPathMs_drop p ms ps hd]
+      exact hf.2
 
 /-- the levels a designator pushed -/
 theorem stk_chain {root : Place} {st' : St} : ∀ {m : Nat} {q : Place} {ps : List Nat} {m' : Nat} {q' : Place},
     Chain st' m q ps m' q' → ∀ (pl : Nat → Place), pl 0 = root → pl m = q →
     (∀ k, k < m → ∃ pos, Lvl st' k (pl k) pos (pl (k + 1)) ∧ childAt (pl k) pos true = some (pl (k + 1))) →
-    PlGeo true q →
+    firstPath q.ty ps = true →
     ∃ pl' : Nat → Place, pl' 0 = root ∧ pl' m' = q' ∧
       ∀ k, k < m' → ∃ pos, Lvl st' k (pl' k) pos (pl' (k + 1)) ∧ childAt (pl' k) pos true = some (pl' (k + 1)) := by
   intro m q ps m' q' hch
   induction hch with
   | nil m q => intro pl h0 hm hl _; exact ⟨pl, h0, hm, hl⟩
   | @cons m q ch p ps m' q' hl _ ih =>
-    intro pl h0 hm hlv hg
-    have hc : childAt q p true = some ch := childAt_true_of_noUnion (hg.nu rfl) hl.child
-    have hgc := (child_geo hg hc).1
-    refine ih (upd pl (m + 1) ch) (by unfold upd; rw [if_neg (by omega)]; exact h0) (by unfold upd; rw [if_pos rfl]) ?_ hgc
+    intro pl h0 hm hlv hf
+    obtain ⟨hc, hfc⟩ := firstPath_step hf hl.child
+    refine ih (upd pl (m + 1) ch) (by unfold upd; rw [if_neg (by omega)]; exact h0) (by unfold upd; rw [if_pos rfl]) ?_ hfc
     intro k hk
     by_cases hkm : k = m
     · subst hkm
